@@ -1519,6 +1519,9 @@ class Interp:
     # external / builtin summaries
     def call_external(self, name: str, args, kwargs, st: State, node) -> list[Out]:
         short = name.split(".")[-1]
+        if name in ("operator.mul", "operator.add", "operator.sub", "_operator.mul") and len(args) == 2:
+            op = {"mul": ast.Mult(), "add": ast.Add(), "sub": ast.Sub()}[short]
+            return self.binop(args[0], op, args[1], st, node)
         if name.startswith("builtins."):
             if short == "bytes" and len(args) == 1 and isinstance(args[0], SeqV) and args[0].kind == "bytes":
                 return self.val(st, args[0])     # bytes(b) of a bytes object is an equal bytes object
@@ -1724,6 +1727,10 @@ class Interp:
             return self.val(cur, cur.new_list([items[i] for i in order]))
         if short == "reversed" and len(args) == 1 and isinstance(args[0], (ListV, TupleV)):
             return self.val(st, TupleV(list(reversed(st.items(args[0]))), True))
+        if short == "reversed" and len(args) == 1 and isinstance(args[0], RangeV) and args[0].lo.is_const() \
+                and args[0].hi.is_const():
+            return self.val(st, TupleV([IntV(i) for i in reversed(range(int(args[0].lo.const), int(args[0].hi.const)))],
+                                       True))
         if short in ("list", "tuple") and not args:
             return self.val(st, st.new_list([]) if short == "list" else TupleV([]))
         if short == "sum" and len(args) == 1 and isinstance(args[0], (ListV, TupleV)):
